@@ -290,7 +290,8 @@ def run(prop, tier, seed, replay=None):
     if prop == "C07":
         sync_overlap(rep, tier)
     if prop == "C17":
-        read_overlap(rep, tier)
+        from . import readoverlap, reportrace
+        readoverlap.check(rep, [n for n in reportrace.PAIRS if "multiget" in n] + ["abmultiget-data/abquery-etag"])
     nev = sum(len(t["events"]) for t in traces)
     rep.coverage.update(mc)
     rep.coverage.update({
@@ -352,39 +353,6 @@ def sync_overlap(rep, tier):
         else:
             rep.note("sync overlap: %s (%s after %d steps)" % (v["w"], r["write"], r["i"]))
     rep.coverage["sync_overlap_runs"] = len(recs)
-
-
-def _read_overlap_work(name):
-    _quiet()
-    from . import reportrace
-    try:
-        return {"ok": True, "recs": reportrace.run_pair(name)}
-    except Exception:
-        return {"ok": False, "error": traceback.format_exc()}
-
-
-def read_overlap(rep, tier):
-    """C17: a report during which another report (other hrefs, another property list) is answered,
-    at every file-system step of the first: its answer is the one it gets alone."""
-    from . import reportrace
-    names = sorted(reportrace.PAIRS)
-    with multiprocessing.get_context("fork").Pool(len(names)) as pool:
-        outs = pool.map(_read_overlap_work, names, chunksize=1)
-    recs = []
-    for o in outs:
-        if not o["ok"]:
-            common.machinery_failure("harness exception (read overlap):\n" + o["error"])
-        recs.extend(o["recs"])
-    res, stat = tlc.validate_traces("ReadOverlapTrace", "ReadOverlapTrace.cfg", {"recs": recs})
-    for v in res:
-        r = recs[v["i"] - 1]
-        if v["k"] == "viol":
-            rep.violation("report overlapped by another report (%s) after %d of %d steps: %s got=%s alone=%s" % (
-                r["pair"], r["i"], r["gates"], v["w"], json.dumps(r["got"]), json.dumps(r["alone"])),
-                {"property": rep.prop, "verdict": v, "record": r})
-        else:
-            rep.note("read overlap: %s (%s after %d steps)" % (v["w"], r["pair"], r["i"]))
-    rep.coverage["read_overlap_runs"] = len(recs)
 
 
 def uid_cache_conformance(rep, traces):
